@@ -153,6 +153,12 @@ def mentioned_names() -> set:
     return _MENTIONED
 
 
+# values of standard-library constants evo's code may name
+_LIB_CONSTANTS = {"codecs.BOM_UTF8": b"\xef\xbb\xbf"}
+_ATTR_ALIASES = {"numpy.shape": "shape", "numpy.ndim": "ndim",
+                 "numpy.size": "size", "numpy.transpose": "T"}
+
+
 class Interp:
     def __init__(self, prog: Program,
                  inline: Callable[[Function], bool] = lambda f: False,
@@ -1003,6 +1009,8 @@ class Interp:
                 return tm.enum(c.qualname, obj[2])
             return self.module_const(c.module, obj[2], obj[3],
                                      key=f"{c.qualname}.{obj[2]}")
+        if q in _LIB_CONSTANTS:
+            return const(_LIB_CONSTANTS[q])
         head = q.split(".")[0]
         if head == "evo":
             # names defined in evo/__init__ etc.
@@ -1023,7 +1031,14 @@ class Interp:
         finally:
             self.events = saved_events
         # only keep literal-like values; anything computed stays a named global
-        if self._is_literal(v):
+        if v.op == "const" and isinstance(tm.const_val(v), (
+                str, bytes, int, float)) and \
+                not m.name.startswith("evo.tools.settings"):
+            # a named scalar (NSEC_PER_SEC = 10**9, SUFFIX = ".tum") is the
+            # scalar: code that names its literals analyses like code that
+            # spells them out
+            out = v
+        elif self._is_literal(v):
             out = T("named", key, v)
         else:
             out = T("named", key, v) if v.op == "call" else tm.glob(key)
@@ -1054,8 +1069,55 @@ class Interp:
         base = self.eval(n.value, frame, live)
         return self.get_attr(base, n.attr, frame, live, n)
 
+    def _new_option_default(self, name: str) -> Optional[T]:
+        """parser default of a command-line option that is not among the
+        options of the pinned tree (sa/known_options.py): the properties
+        quantify over the documented options, so an option added later is
+        analysed at its default"""
+        from .known_options import KNOWN_OPTIONS
+        if name in KNOWN_OPTIONS:
+            return None
+        tab = getattr(self.prog, "_new_opts", None)
+        if tab is None:
+            from .lib import parser_arguments
+            tab = {}
+            for (_, _, opts, kws) in parser_arguments(
+                    self.prog, lambda n: n.startswith("evo.")):
+                d = kws.get("dest")
+                if isinstance(d, ast.Constant):
+                    dest = d.value
+                else:
+                    longs = [o for o in opts if o.startswith("--")]
+                    if not longs:
+                        continue             # positional: always given
+                    dest = longs[0][2:].replace("-", "_")
+                if dest in KNOWN_OPTIONS:
+                    continue
+                act = kws.get("action")
+                act = act.value if isinstance(act, ast.Constant) else None
+                dflt = kws.get("default")
+                if isinstance(dflt, ast.Constant):
+                    val = const(dflt.value)
+                elif dflt is None and act == "store_true":
+                    val = const(False)
+                elif dflt is None and act == "store_false":
+                    val = const(True)
+                elif dflt is None:
+                    val = NONE
+                else:
+                    val = None               # computed default: unknown
+                if dest in tab and tab[dest] is not val:
+                    val = None               # parsers disagree
+                tab[dest] = val
+            self.prog._new_opts = tab
+        return tab.get(name)
+
     def get_attr(self, base: T, name: str, frame: Frame, live: T,
                  node=None) -> T:
+        if base.op == "param" and base.args[0] == "args":
+            dv = self._new_option_default(name)
+            if dv is not None:
+                return dv
         if base.op == "module":
             q = self.prog.canonical(base.args[0] + "." + name)
             return self.qual_to_term(q)
@@ -1063,6 +1125,9 @@ class Interp:
             if base.args[0].startswith("evo.") and isinstance(
                     self.prog.lookup(base.args[0]), tuple):
                 return tm.attr(base, name)     # evo module constant object
+            lib_const = _LIB_CONSTANTS.get(base.args[0] + "." + name)
+            if lib_const is not None:
+                return const(lib_const)
             return tm.glob(base.args[0] + "." + name)
         if base.op == "cls":
             cq = base.args[0]
@@ -1518,6 +1583,14 @@ class Interp:
                     if k < len(args):
                         parts.append(args[k])
                 return T("fstr", *parts)
+        if fn.op == "global" and fn.args[0] in _ATTR_ALIASES and \
+                len(args) == 1 and not kwargs and args[0].op != "star":
+            # np.shape(a) is a.shape etc.: one term for both spellings
+            return tm.attr(args[0], _ATTR_ALIASES[fn.args[0]])
+        if fn.op == "global" and fn.args[0] == "builtins.len" and \
+                len(args) == 1 and not kwargs and tm.is_const(args[0]) and \
+                isinstance(tm.const_val(args[0]), (str, bytes)):
+            return const(len(tm.const_val(args[0])))
         recv: Optional[T] = None
         target: Optional[Function] = None
         name: Optional[str] = None
